@@ -214,6 +214,8 @@ func (c *expCompiler) ProcessUnOpExp(u ast.UnOp) {
 }
 
 func (c *expCompiler) CompileExp(e ast.ExpNode) {
+	c.enterNode(e)
+	defer c.leaveNode()
 	e.ProcessExp(c)
 }
 
@@ -247,6 +249,8 @@ func (c tailExpCompiler) ProcessFunctionCallTailExp(f ast.FunctionCall) {
 }
 
 func (c tailExpCompiler) CompileTailExp(e ast.TailExpNode) {
+	c.enterNode(e)
+	defer c.leaveNode()
 	e.ProcessTailExp(c)
 }
 
@@ -271,6 +275,8 @@ func (c *etcExpCompiler) ProcessFunctionCallTailExp(f ast.FunctionCall) {
 }
 
 func (c *etcExpCompiler) CompileTailExp(e ast.TailExpNode) {
+	c.enterNode(e)
+	defer c.leaveNode()
 	e.ProcessTailExp(c)
 }
 
